@@ -485,6 +485,16 @@ class Interp:
         if f is None:
             raise Unsupported("no library model for %s" % dotted)
         self.lib_used.add(dotted)
+        import inspect as _inspect
+
+        try:
+            _inspect.signature(f).bind(self, *args, **kwargs)
+        except TypeError as e:
+            # the code uses the library function in a way its model does not cover (another
+            # keyword, more arguments): undecided, never a crash of the checker
+            raise Unsupported("library model for %s does not cover this call (%s)" % (dotted, e))
+        except ValueError:
+            pass
         return f(self, *args, **kwargs)
 
     def bind_args(self, cl, args, kwargs):
